@@ -67,6 +67,10 @@ def _replay_gap(rows):
         ncalls += 1
         if got.shape != exp.shape or not np.allclose(got, exp, atol=5e-6):
             bad.append({"kind": "get_delta", "cone": cone, "V": V, "expected": exp.tolist(), "got": got.tolist()})
+        got_i = np.asarray(get_delta(np.array(V), Wu, alpha)).flatten()          # the same value set as an INTEGER array
+        ncalls += 1
+        if got_i.shape != exp.shape or not np.allclose(got_i, exp, atol=5e-6):
+            bad.append({"kind": "get_delta-int-dtype", "cone": cone, "V": V, "expected": exp.tolist(), "got": got_i.tolist()})
         n = len(V)
         m01 = float(get_smallmij(Va[0], Va[1], Wu, alpha))
         e01 = min(max(0.0, float(Wu[k] @ (Va[1] - Va[0]))) / float(alpha[k, 0]) for k in range(len(Wu)))
@@ -114,15 +118,16 @@ def _replay_f1(rows):
         name = "VVF1_%d" % len(V)
         cls = AT.register_dataset(name, np.arange(len(V), dtype=float)[:, None] + 0.5 * np.arange(len(V))[:, None] ** 2, np.array(V, dtype=float), keep_raw_out=True)
         ds = cls()
-        ds.out_data = np.array(V, dtype=float)
-        for (en, ed), (num, den) in f1.items():
-            if en == 0 or bd[(en, ed)]:
-                continue
-            eps = math.sqrt(en / ed)
-            got = float(calculate_epsilonF1_score(ds, orders[cone], np.array(sorted(i - 1 for i in true)), [i - 1 for i in pred], eps))
-            ncalls += 1
-            if not (abs(got - num / den) < 1e-9):
-                bad.append({"kind": "epsF1", "cone": cone, "V": V, "true": sorted(true), "pred": list(pred), "eps": eps, "expected": [num, den], "got": got})
+        for dt in (float, int):
+            ds.out_data = np.array(V, dtype=dt)          # float and integer value sets (the repository's own evaluate test passes integers)
+            for (en, ed), (num, den) in f1.items():
+                if en == 0 or bd[(en, ed)]:
+                    continue
+                eps = math.sqrt(en / ed)
+                got = float(calculate_epsilonF1_score(ds, orders[cone], np.array(sorted(i - 1 for i in true)), [i - 1 for i in pred], eps))
+                ncalls += 1
+                if not (abs(got - num / den) < 1e-9):
+                    bad.append({"kind": "epsF1" + ("" if dt is float else "-int-dtype"), "cone": cone, "V": V, "true": sorted(true), "pred": list(pred), "eps": eps, "expected": [num, den], "got": got})
     return ncalls, bad
 
 
